@@ -102,3 +102,84 @@ def signals(ninja):
             if b'no work to do' not in r2.stdout: bad.append(('kill-converge', 'kill -9 %s: the run after the recovery build is not a no-op: %r' % (moment, r2.stdout.decode()[-100:])))
         finally: shutil.rmtree(d, ignore_errors=True)
     return bad, n
+
+def start_preconditions(ninja):
+    """C04 on the real binary and the real disk: at the moment the command starts, the output/depfile directories
+    exist and the response file holds the declared content -- also when writing it meets an I/O error (file size
+    limit: the flush at fclose() fails), in which case the command must not be started at all."""
+    import resource
+    bad = []
+    content = ' '.join('obj/file%03d.o' % i for i in range(200))          # 2999 bytes: fits the stdio buffer
+    script = ('if [ -d deep/er ] && [ -d dd ]; then echo dirs-ok > dirs; else echo DIRS-MISSING > dirs; fi; '
+              'if [ "$$(cat deep/er/app.rsp)" = "%s" ]; then echo ok > seen; else echo BAD > seen; fi; : > deep/er/app; : > dd/app.d') % content
+    manifest = 'rule link\n  command = %s\n  rspfile = deep/er/app.rsp\n  rspfile_content = %s\n  depfile = dd/app.d\nbuild deep/er/app: link in\n' % (script, content)
+    for limit in (None, 1024, 2048, 512):
+        with tempfile.TemporaryDirectory(prefix='verif-real-', dir='/dev/shm') as d:
+            open(d + '/build.ninja', 'w').write(manifest); open(d + '/in', 'w').write('x')
+            def pre():
+                if limit is not None:
+                    signal.signal(signal.SIGXFSZ, signal.SIG_IGN)
+                    resource.setrlimit(resource.RLIMIT_FSIZE, (limit, limit))
+            p = subprocess.run([ninja, '-C', d], stdout=subprocess.PIPE, stderr=subprocess.STDOUT, timeout=60, preexec_fn=pre)
+            seen = open(d + '/seen').read().strip() if os.path.exists(d + '/seen') else None
+            dirs = open(d + '/dirs').read().strip() if os.path.exists(d + '/dirs') else None
+            if limit is None:
+                if p.returncode != 0 or seen != 'ok' or dirs != 'dirs-ok':
+                    bad.append(('start-preconditions', 'plain run: exit %d, response file seen by the command: %s, directories: %s; %s' % (p.returncode, seen, dirs, p.stdout.decode(errors='replace')[-300:])))
+            else:
+                if seen is not None and seen != 'ok':
+                    bad.append(('rspfile-write-error-ignored', 'file size limit %d (the write of the %d-byte response file fails when the stream is flushed): the command was started '
+                                'and found a response file that does not hold the declared content; ninja exit %d' % (limit, len(content), p.returncode)))
+                elif seen is None and p.returncode == 0:
+                    bad.append(('rspfile-write-error-ignored', 'file size limit %d: ninja reports success although the command never ran' % limit))
+    return bad
+
+def _proc_state(pid):
+    try: return open('/proc/%d/stat' % pid).read().rsplit(')', 1)[1].split()[0]
+    except (OSError, IndexError): return '-'
+
+def jobserver_abort_unreaped(ninja):
+    """two commands finish while ninja is stopped (both sit in the finished queue when it continues); handling the first
+    completion aborts the build (its output is a malformed dyndep file).  Every token must be back in the FIFO at exit,
+    including that of the finished-but-not-yet-reaped command."""
+    bad = []
+    for order in (('a.dd', 'b.dd'), ('b.dd', 'a.dd')):
+        d = mk('c06a')
+        p = None
+        try:
+            m = ('rule gate\n  command = echo $$$$ > $out.pid; while [ ! -e go ]; do sleep 0.01; done; echo not-a-dyndep-file > $out\n'
+                 'rule touch\n  command = touch $out\n')
+            for dd in order: m += 'build %s: gate\n' % dd
+            m += 'build c: touch || a.dd\n  dyndep = a.dd\nbuild e: touch || b.dd\n  dyndep = b.dd\ndefault c e\n'
+            open(d + '/build.ninja', 'w').write(m)
+            fifo = d + '/fifo'; os.mkfifo(fifo)
+            fd = os.open(fifo, os.O_RDWR | os.O_NONBLOCK); os.write(fd, b'++')
+            env = dict(os.environ, MAKEFLAGS=' -j3 --jobserver-auth=fifo:' + fifo)
+            p = subprocess.Popen([ninja, '-C', d], stdout=subprocess.PIPE, stderr=subprocess.STDOUT, env=env)
+            if not (wait_for(d + '/a.dd.pid') and wait_for(d + '/b.dd.pid')):
+                bad.append(('abort-setup', 'the two gated commands did not both start under a 2-token jobserver')); continue
+            time.sleep(0.05)
+            pids = [int(open(d + '/%s.pid' % x).read().strip() or 0) for x in order]
+            os.kill(p.pid, signal.SIGSTOP)
+            t0 = time.time()
+            while _proc_state(p.pid) != 'T' and time.time() - t0 < 10: time.sleep(0.005)
+            open(d + '/go', 'w').close()
+            t0 = time.time()
+            while not all(_proc_state(x) in ('Z', '-') for x in pids) and time.time() - t0 < 20: time.sleep(0.005)
+            try: held = len(os.read(fd, 100))
+            except BlockingIOError: held = 0
+            os.write(fd, b'+' * held)
+            os.kill(p.pid, signal.SIGCONT)
+            try: out, _ = p.communicate(timeout=60)
+            except subprocess.TimeoutExpired: p.kill(); bad.append(('abort-hang', 'ninja did not exit within 60 s')); continue
+            try: left = len(os.read(fd, 100))
+            except BlockingIOError: left = 0
+            os.close(fd)
+            if held != 1 or p.returncode == 0: continue       # the scenario was not reached (no explicit token taken / no abort): nothing to judge
+            if left != 2:
+                bad.append(('token-leak-abort-unreaped', 'jobserver FIFO held 2 tokens before and %d after a run that aborted (exit %d: %s) while a second command had finished '
+                            'but was not reaped yet (order %s)' % (left, p.returncode, out.decode(errors='replace').strip().split('\n')[-1][:120], ','.join(order))))
+        finally:
+            if p and p.poll() is None: p.kill()
+            shutil.rmtree(d, ignore_errors=True)
+    return bad
